@@ -33,8 +33,9 @@ def job_fn(job):
         plugin = tvdelay.Composite(tvdelay.ChainPlugin(), tvdelay.RingBufferPlugin(DT))
     elif any(e.delay is not None and e.spread is None for e in spec.edges):
         plugin = tvdelay.Composite(tvdelay.ChainPlugin(), tvdelay.HistPlugin(DT, True))
-    res = tvspec.validate(spec, c, tally, vectorized=job['vectorize'], plugin=plugin,
-                          t_sym=(3 if job['solver'] == 'euler' else None))
+    from .. import symx
+    t_sym = 3 if job['solver'] == 'euler' else (symx.real('t') if isinstance(plugin, tvdelay.Composite) else None)
+    res = tvspec.validate(spec, c, tally, vectorized=job['vectorize'], plugin=plugin, t_sym=t_sym)
     # unit gain and mean delay of every discovered chain (exact rational arithmetic on the discovered rates)
     chains = {}
     for j, (src, rates) in getattr(plugin, 'aux_info', getattr(getattr(plugin, 'plugins', [None])[0], 'aux_info', {})).items():
